@@ -39,6 +39,9 @@ func (w *World) probes(ctx sdk.Context, l *Ledger, c *curve, s0 *big.Rat) []prob
 		for _, a := range []int64{1, 250000} {
 			ps = append(ps, probe{dir, false, w.amtBig(a), "fixed"})
 		}
+		// far more than any curve of the scenario absorbs with a position anchored at the extreme tick (1e20 units): the
+		// swap ends on the extreme price with most of the offer unused
+		ps = append(ps, probe{dir, true, new(big.Int).Mul(new(big.Int).Exp(big.NewInt(10), big.NewInt(20), nil), w.scale), "overfill"})
 		if in, out, ok := c.toNextTick(s0, dir == 0, sf); ok {
 			ci := ceilRat(in)
 			fo := floorRat(out)
@@ -215,6 +218,19 @@ func (w *World) CheckC03(ctx sdk.Context, l *Ledger, fail func(a, s, d string), 
 			}
 		}
 		if pr.in {
+			// the curve ran out of liquidity before the charged input was used up: nothing beyond what the curve absorbs
+			// (plus the rounding budget) may be charged - the rest of the offer must stay with the sender
+			if wr.Exhausted {
+				ub := new(big.Int).Add(ceilRat(wr.In), big.NewInt(k))
+				// amounts of 1e18 and more: the 18-decimal Dec roundings of the spread charge are worth more than a unit
+				if scaled || inImpl.BigInt().Cmp(ten18) >= 0 {
+					ub = new(big.Int).Add(ceilRat(wr.In), new(big.Int).Add(big.NewInt(k), decRoundingAllowance(&wr, inImpl.BigInt(), sf)))
+				}
+				vac["exact_in_probes_larger_than_the_curve_absorbs"]++
+				if inImpl.BigInt().Cmp(ub) > 0 {
+					fail("c03.charged-at-most-what-the-curve-absorbs", "", fmt.Sprintf("%s: offered %s, charged %s, paid out %s; the exact curve runs out of liquidity after absorbing %s (budget %s)", tag, amt, inImpl, outImpl, wr.In.FloatString(6), new(big.Int).Sub(ub, ceilRat(wr.In))))
+				}
+			}
 			idealOut := floorRat(wr.Out)
 			if outImpl.BigInt().Cmp(idealOut) > 0 {
 				fail("c03.out-never-exceeds-curve", "", fmt.Sprintf("%s: paid out %s, exact curve gives %s (floor %s) for input %s", tag, outImpl, wr.Out.FloatString(6), idealOut, inImpl))
